@@ -235,21 +235,25 @@ def judge(ctx, jobs, name, nshards, canary_pick=None, extra_canaries=None):
     rej, stats, n = validate(ctx, by, order, name, nshards)
     # ---- binding canary: corrupt an accepted scenario, TLC must reject each corruption
     good = [sc for sc in order if sc not in rej and (canary_pick is None or canary_pick(jb[sc], by[sc]))]
-    if not good:
-        raise vlib.Machinery("%s: no accepted scenario to build the binding canary from" % name)
-    can = canaries(by, good[0], 10 ** 7)
-    if extra_canaries:
-        can.update(extra_canaries(by, good, 10 ** 7 + 100))
+    can = {}
+    if good:
+        can = canaries(by, good[0], 10 ** 7)
+        if extra_canaries:
+            can.update(extra_canaries(by, good, 10 ** 7 + 100))
     if len(can) < 3:
-        raise vlib.Machinery("%s: could not build the canaries from scenario %d" % (name, good[0]))
-    cby = dict(can)
-    cby[good[0]] = by[good[0]]
-    crej, _, _ = validate(ctx, cby, [good[0]] + sorted(can), name + "_canary", 1)
-    if good[0] in crej:
-        raise vlib.Machinery("%s: the canary's uncorrupted original was rejected on re-validation" % name)
-    accepted = [k for k in can if k not in crej]
-    if accepted:
-        raise vlib.Machinery("%s: binding canary accepted by TLC (corruptions %s not rejected): the trace machinery is broken" % (name, accepted))
+        # without a canary a clean result would mean nothing; with reproduced rejections the verdict stands on those
+        if not rej:
+            raise vlib.Machinery("%s: no accepted scenario to build the binding canary from" % name)
+        ctx.note("%s: binding canary skipped, every suitable scenario was rejected" % name)
+    else:
+        cby = dict(can)
+        cby[good[0]] = by[good[0]]
+        crej, _, _ = validate(ctx, cby, [good[0]] + sorted(can), name + "_canary", 1)
+        if good[0] in crej:
+            raise vlib.Machinery("%s: the canary's uncorrupted original was rejected on re-validation" % name)
+        accepted = [k for k in can if k not in crej]
+        if accepted:
+            raise vlib.Machinery("%s: binding canary accepted by TLC (corruptions %s not rejected): the trace machinery is broken" % (name, accepted))
     # ---- confirm rejections: replay the rejected scenarios alone in fresh processes and validate again
     confirmed = {}
     if rej:
@@ -262,6 +266,12 @@ def judge(ctx, jobs, name, nshards, canary_pick=None, extra_canaries=None):
                 by[sc] = by2[sc]
         lost = sorted(set(rej) - set(confirmed))
         if lost:
+            import os
+            d = os.path.join(vlib.VERIF, "replays", ctx.pid)
+            os.makedirs(d, exist_ok=True)
+            with open(os.path.join(d, "unreproduced-seed%d-sc%d.json" % (ctx.seed, lost[0])), "w") as f:
+                json.dump({"job": jb[lost[0]], "why_first": rej[lost[0]], "why_second": rej2.get(lost[0], ""),
+                           "first_run": by[lost[0]], "second_run": by2[lost[0]]}, f)
             raise vlib.Machinery("%s: rejection of scenarios %s did not reproduce (%s vs %s)" % (
                 name, lost[:5], [rej[s] for s in lost[:5]], [rej2.get(s) for s in lost[:5]]))
     return dict(rej=confirmed, stats=stats, events=n, by=by, canaries=len(can))
